@@ -36,6 +36,16 @@
 (*                                                                         *)
 (* Fault plants weakened rules (historical defects of the library,         *)
 (* DESIGN.md 11.1): Apalache must REFUTE the lemma for each of them.       *)
+(*                                                                         *)
+(* By hand (in a scratch copy; checks/c08_lemma.py runs all of it):        *)
+(*   timeout 600 apalache-mc check --init=Init --cinit=CInitAny            *)
+(*        --inv=Lemma --length=0 PLLemma.tla              -- must pass      *)
+(*   ... --cinit=CInit53 --inv=NotAccepting               -- must fail      *)
+(*   ... --cinit=CInit_no_users_default --inv=Lemma_Scalars -- must fail    *)
+(*   ... --init=InitPair --cinit=CInitAny                                  *)
+(*        --inv=OrderOnly_R10,OrderOnly_NoEsc,OrderOnly_Inf -- must pass    *)
+(*   everything at once: --init=Init --cinit=CInitAll --view=View          *)
+(*        --max-error=20 --inv=H_Lemma,H_InfIsTwo53,X_...  (H_ hold, X_ fail) *)
 (***************************************************************************)
 EXTENDS Integers
 
@@ -405,7 +415,7 @@ NotRejecting == R10_PowerLevels(v, st, ev)
 (* violated.  checks/c08_lemma.py reads the verdict of each by position.   *)
 (***************************************************************************)
 \* Fault values that leave the rule as it is: "none" and one name per non-vacuity witness
-Benign == {"none", "w_accepting", "w_first", "w_inf", "w_rejecting"}
+Benign == {"none", "w_accepting", "w_first", "w_inf", "w_rejecting", "w_two53"}
 CInitAll == Fault \in (Faults \cup Benign) /\ NoPLCreatorLevel \in Int
 \* --max-error needs a view that tells counterexamples apart; with Fault as the view every obligation (each is
 \* about its own Fault value) yields at most one counterexample
@@ -488,4 +498,20 @@ OrderOnly_R10   == (SameShape /\ SameOrder /\ R10_PowerLevels(v, st, ev)) => R10
 OrderOnly_NoEsc == (SameShape /\ SameOrder /\ NoEscInt(v, st, ev)) => NoEscInt(v, st2, ev2)
 OrderOnly_Inf   == SameShape => (UserLevel(v, st, ev.sender).inf = UserLevel(v, st2, ev2.sender).inf)
 OrderOnly == OrderOnly_R10 /\ OrderOnly_NoEsc /\ OrderOnly_Inf
-=============================================================================
+
+(***************************************************************************)
+(* Departure A2 gives privileged creators the level 2^53, the model an     *)
+(* "above every integer" flag.  The two cannot be told apart as long as    *)
+(* every level that is present is a canonical-JSON integer (at most        *)
+(* 2^53-1): the rule and the invariant give the same verdicts at both.     *)
+(***************************************************************************)
+InfIsTwo53 ==
+    LET L == SlotLives(st, ev)  X == SlotVals(st, ev) IN
+    (\A i \in 1..NSlots : L[i] => X[i] <= 2^53 - 1) =>
+       /\ R10_At(v, st, ev, InfLevel) = R10_At(v, st, ev, Fin(2^53))
+       /\ NoEsc_At(v, st, ev, InfLevel) = NoEsc_At(v, st, ev, Fin(2^53))
+========================================================================\* (an obligation of the combined run, see H_Lemma)
+H_InfIsTwo53 == Fault \in Benign => InfIsTwo53
+\* ... and the bound is needed: with a level above 2^53 the two differ (must be refuted)
+X_InfNoBound == Fault = "w_two53" => (R10_At(v, st, ev, InfLevel) = R10_At(v, st, ev, Fin(2^53)))
+=====
